@@ -119,8 +119,18 @@ const prefixLen = 112
 
 func o1(v uint64) reftx.Out { return reftx.Out{Value: v, Script: []byte{0x51}} }
 
-func buildPrefix() *chainx.Prefix {
-	return chainx.BuildPrefix("c04", params, prefixLen, func(h uint32, s *minichain.Spec, p *chainx.Prefix) {
+// buildPrefix: compr = the unspent-output database keeps its records in the compressed format
+// (client option Memory.CompressUTXO). lib/utxo selects the record format through package-level
+// function variables, so plain and compressed sessions never run at the same time: the
+// compressed phase starts after the plain one has finished.
+func buildPrefix(compr bool) *chainx.Prefix {
+	opts := minichain.Opts{Params: params}
+	name := "c04"
+	if compr {
+		opts.ChainOpts.CompressUTXO = true
+		name = "c04c"
+	}
+	return chainx.BuildPrefixOpts(name, opts, prefixLen, func(h uint32, s *minichain.Spec, p *chainx.Prefix) {
 		switch {
 		case h == 102:
 			m := minichain.Spend([]OP{p.Cb[1]}, []reftx.Out{o1(10e8), o1(10e8), o1(10e8), {Value: 10e8, Script: []byte{0x00}}, o1(5e8), {Value: 5e8, Script: wsOP1}})
@@ -155,6 +165,11 @@ func buildPrefix() *chainx.Prefix {
 				s.Txs = append(s.Txs, t)
 				p.Named[fmt.Sprint("T", i)] = OP{Tx: t.TxID()}
 			}
+			// BIG: two matured coinbases consolidated into one 100 BTC output (the amount
+			// compression of the record formats has its own branch for multiples of 10^9 satoshi)
+			big := minichain.Spend([]OP{p.Cb[11], p.Cb[12]}, []reftx.Out{o1(100e8)})
+			s.Txs = append(s.Txs, big)
+			p.Named["BIG"] = OP{Tx: big.TxID()}
 		case h >= 105 && h <= 110:
 			// R<h>: coins of known recent confirmation height (BIP68 variants)
 			r := minichain.Spend([]OP{p.Cb[h-102]}, []reftx.Out{o1(25e8), o1(25e8)})
@@ -291,6 +306,12 @@ func variants() []variant {
 		x := sp(ops(c.coin("M2")), outs(o1(4e8), o1(6e8)))
 		y := sp(ops(OP{Tx: x.TxID(), Vout: 1}), outs(o1(6e8)))
 		return blk(c, 12, 0, 0, x, y)
+	}})
+	add(variant{name: "valid-spend-100btc-output", build: func(c *ctx) *reftx.Block {
+		return blk(c, 241, 0, 0, sp(ops(c.coin("BIG")), outs(o1(60e8), o1(40e8))))
+	}})
+	add(variant{name: "outputs-exceed-100btc-input-by-10btc", rule: "inputs cover outputs", build: func(c *ctx) *reftx.Block {
+		return blk(c, 242, 0, 0, sp(ops(c.coin("BIG")), outs(o1(110e8))))
 	}})
 	add(variant{name: "missing-input", rule: "input exists", build: func(c *ctx) *reftx.Block {
 		return blk(c, 13, 0, 0, sp(ops(OP{Tx: [32]byte{9, 9}, Vout: 0}), outs(o1(1))))
@@ -542,6 +563,7 @@ type job struct {
 	seq   []int // variant indexes
 	reorg bool  // deliver the (single) variant as a side-branch block that wins later
 	hf    bool  // every block by the client's headers-first route (chainx.Sess.HF)
+	compr bool  // unspent-output records in the compressed format (second phase)
 }
 
 var watchdog = 120 * time.Second
@@ -704,8 +726,8 @@ func main() {
 		}
 		return false
 	}
-	p := buildPrefix()
-	defer p.Remove()
+	p := buildPrefix(false)
+	defer func() { p.Remove() }()
 	vs := variants()
 	sts := states(p, r.Thorough())
 	ruleHits := map[string]*int64{}
@@ -729,9 +751,15 @@ func main() {
 				Seq   []string `json:"variants"`
 				Reorg bool     `json:"reorg"`
 				HF    bool     `json:"headers_first"`
+				Compr bool     `json:"compressed_records"`
 			} `json:"replay"`
 		}
 		json.Unmarshal(b, &rec)
+		if rec.Replay.Compr {
+			p.Remove()
+			p = buildPrefix(true)
+			sts = states(p, r.Thorough())
+		}
 		var j job
 		for _, st := range sts {
 			if st.name == rec.Replay.State {
@@ -747,6 +775,7 @@ func main() {
 		}
 		j.reorg = rec.Replay.Reorg
 		j.hf = rec.Replay.HF
+		j.compr = rec.Replay.Compr
 		o := runJob(p, vs, j, stateSet, &mu, &trans, ruleHits)
 		if o == nil {
 			fmt.Fprintln(ev.Out, "replay: passes")
@@ -776,33 +805,7 @@ func main() {
 		}
 	}
 
-	jobs := make(chan job, 256)
-	var wg sync.WaitGroup
 	samples := &ev.Samples{N: 4}
-	for w := 0; w < runtime.NumCPU(); w++ {
-		wg.Add(1)
-		go func() {
-			defer wg.Done()
-			for j := range jobs {
-				o := runJob(p, vs, j, stateSet, &mu, &trans, ruleHits)
-				atomic.AddInt64(&hist, 1)
-				var names []string
-				for _, i := range j.seq {
-					names = append(names, vs[i].name)
-				}
-				if o != nil && j.hf {
-					// same block, same rule as by the other route: the key is not split (the listed findings
-					// are identified by the block); the route is in the details
-					o.what += " [headers-first route]"
-				}
-				if o != nil {
-					r.Report(o.key, o.what, map[string]interface{}{"state": j.st.name, "variants": names, "reorg": j.reorg, "headers_first": j.hf, "trace": o.trace})
-				} else {
-					samples.Add(map[string]interface{}{"state": j.st.name, "variants": names, "via_reorg": j.reorg})
-				}
-			}
-		}()
-	}
 	depth := 2
 	if r.Thorough() {
 		depth = 3
@@ -813,31 +816,78 @@ func main() {
 			valid = append(valid, i)
 		}
 	}
-	for _, st := range sts {
-		for i := range vs {
-			jobs <- job{st: st, seq: []int{i}}
-			jobs <- job{st: st, seq: []int{i}, reorg: true}
-			jobs <- job{st: st, seq: []int{i}, hf: true}
-			jobs <- job{st: st, seq: []int{i}, reorg: true, hf: true}
-			for k := range vs {
-				// quick: every invalid variant followed by every valid one, and every valid one followed by everything
-				if !r.Thorough() && vs[i].rule != "" && vs[k].rule != "" {
+	var histCompr int64
+	phase := func(compr bool) {
+		jobs := make(chan job, 256)
+		var wg sync.WaitGroup
+		for w := 0; w < runtime.NumCPU(); w++ {
+			wg.Add(1)
+			go func() {
+				defer wg.Done()
+				for j := range jobs {
+					o := runJob(p, vs, j, stateSet, &mu, &trans, ruleHits)
+					atomic.AddInt64(&hist, 1)
+					if j.compr {
+						atomic.AddInt64(&histCompr, 1)
+					}
+					var names []string
+					for _, i := range j.seq {
+						names = append(names, vs[i].name)
+					}
+					if o != nil && j.hf {
+						// same block, same rule as by the other route: the key is not split (the listed findings
+						// are identified by the block); the route is in the details
+						o.what += " [headers-first route]"
+					}
+					if o != nil && j.compr {
+						// same block, same rule: the key is not split (listed findings are identified by the block)
+						o.what += " [unspent-output records in the compressed format]"
+					}
+					if o != nil {
+						r.Report(o.key, o.what, map[string]interface{}{"state": j.st.name, "variants": names, "reorg": j.reorg, "headers_first": j.hf, "compressed_records": j.compr, "trace": o.trace})
+					} else {
+						samples.Add(map[string]interface{}{"state": j.st.name, "variants": names, "via_reorg": j.reorg})
+					}
+				}
+			}()
+		}
+		for _, st := range sts {
+			for i := range vs {
+				jobs <- job{st: st, seq: []int{i}, compr: compr}
+				jobs <- job{st: st, seq: []int{i}, reorg: true, compr: compr}
+				if compr {
+					// second phase: every single variant, directly and via reorganisation
 					continue
 				}
-				jobs <- job{st: st, seq: []int{i, k}}
-				if depth >= 3 {
-					for _, l := range valid {
-						if vs[i].rule == "" && vs[k].rule == "" {
-							continue
+				jobs <- job{st: st, seq: []int{i}, hf: true}
+				jobs <- job{st: st, seq: []int{i}, reorg: true, hf: true}
+				for k := range vs {
+					// quick: every invalid variant followed by every valid one, and every valid one followed by everything
+					if !r.Thorough() && vs[i].rule != "" && vs[k].rule != "" {
+						continue
+					}
+					jobs <- job{st: st, seq: []int{i, k}}
+					if depth >= 3 {
+						for _, l := range valid {
+							if vs[i].rule == "" && vs[k].rule == "" {
+								continue
+							}
+							jobs <- job{st: st, seq: []int{i, k, l}}
 						}
-						jobs <- job{st: st, seq: []int{i, k, l}}
 					}
 				}
 			}
 		}
+		close(jobs)
+		wg.Wait()
 	}
-	close(jobs)
-	wg.Wait()
+	phase(false)
+	// second phase: the same states and variants over a database with compressed records
+	// (built and run only now: the record format is a package-level switch of lib/utxo)
+	p.Remove()
+	p = buildPrefix(true)
+	sts = states(p, r.Thorough())
+	phase(true)
 	rh := map[string]int64{}
 	var rules []string
 	for k, v := range ruleHits {
@@ -846,19 +896,20 @@ func main() {
 	}
 	sort.Strings(rules)
 	r.Finish(map[string]interface{}{
-		"states":                        len(stateSet),
-		"transitions":                   int(trans),
-		"histories":                     int(hist),
-		"chain_states":                  len(sts),
-		"variants":                      len(vs),
-		"rules_exercised":               rh,
-		"subsidy_boundary_checks":       rewardChecks,
-		"trusted_tx_checker_calls":      map[string]int64{"asked": vouchAsked, "vouched": vouchGiven},
-		"valid_blocks_not_connected":    lostList(),
-		"traces_validated_against_impl": int(hist),
-		"samples":                       samples.L,
-		"exhaustive":                    true,
-		"rule":                          fmt.Sprintf("chain states x all variants x all variant sequences to depth %d (quick omits invalid->invalid pairs); every single variant, directly and via reorganisation, also by the client's headers-first route (announce, data, gate, CommitBlock); every delivery executed on the real chain from a copied prefix directory; verdict, tip and decoded UTXO map compared with refchain after each delivery", depth),
+		"states":                            len(stateSet),
+		"transitions":                       int(trans),
+		"histories":                         int(hist),
+		"histories_with_compressed_records": int(histCompr),
+		"chain_states":                      len(sts),
+		"variants":                          len(vs),
+		"rules_exercised":                   rh,
+		"subsidy_boundary_checks":           rewardChecks,
+		"trusted_tx_checker_calls":          map[string]int64{"asked": vouchAsked, "vouched": vouchGiven},
+		"valid_blocks_not_connected":        lostList(),
+		"traces_validated_against_impl":     int(hist),
+		"samples":                           samples.L,
+		"exhaustive":                        true,
+		"rule":                              fmt.Sprintf("chain states x all variants x all variant sequences to depth %d (quick omits invalid->invalid pairs); every single variant, directly and via reorganisation, also by the client's headers-first route (announce, data, gate, CommitBlock); every single variant a second time, directly and via reorganisation, over a database with compressed records; every delivery executed on the real chain from a copied prefix directory; verdict, tip and decoded UTXO map compared with refchain after each delivery", depth),
 	}, []string{
 		"reference model refchain (Core's connect rules incl. MoneyRange, BIP68, sigop cost) is the oracle",
 		"scripts are OP_1 / OP_0 / sigop-carrying output scripts, plus one 400-byte redeem / witness script (an unexecuted branch with 198 OP_16 OP_CHECKMULTISIG) behind P2SH, P2WSH and P2SH-P2WSH outputs for the sigop cost that is only reached when redeem and witness scripts are counted; real script semantics are C01's",
